@@ -609,4 +609,11 @@ theorem wiresFrom_ts (w : Wire) (g : Good w) (fe : FrontEnd) (o : List Out) (k :
     | connected => exact ih k (fun t' ht' => hts t' (by simpa [tsOf] using ht'))
     | unmodelled => exact ih k (fun t' ht' => hts t' (by simpa [tsOf] using ht'))
 
+/-- one wire per command of the trace -/
+theorem wiresFrom_length (w : Wire) (fe : FrontEnd) (o : List Out) (k : Nat) :
+    (wiresFrom w fe k o).length = countCmd o := by
+  induction o generalizing k with
+  | nil => rfl
+  | cons x t ih => cases x <;> simp [wiresFrom, countCmd, ih]
+
 end Ndn.NfdBytes
